@@ -55,6 +55,29 @@ type s3Req struct {
 	Body            []byte
 }
 
+// chunkedBody hands out its bytes in several short reads.
+type chunkedBody struct {
+	b     []byte
+	chunk int
+}
+
+func (c *chunkedBody) Read(p []byte) (int, error) {
+	if len(c.b) == 0 {
+		return 0, io.EOF
+	}
+	n := c.chunk
+	if n > len(p) {
+		n = len(p)
+	}
+	if n > len(c.b) {
+		n = len(c.b)
+	}
+	copy(p, c.b[:n])
+	c.b = c.b[n:]
+	return n, nil
+}
+func (c *chunkedBody) Close() error { return nil }
+
 type failingReader struct{}
 
 func (failingReader) Read(p []byte) (int, error) { return 0, errors.New("injected body read failure") }
@@ -80,7 +103,8 @@ func (f *s3Fake) GetObjectWithContext(ctx aws.Context, in *s3.GetObjectInput, op
 	if f.failRead {
 		return &s3.GetObjectOutput{Body: failingReader{}}, nil
 	}
-	return &s3.GetObjectOutput{Body: io.NopCloser(bytes.NewReader(append([]byte(nil), b...))), ContentLength: aws.Int64(int64(len(b)))}, nil
+	// like a network body, the data arrives in pieces, not in one Read
+	return &s3.GetObjectOutput{Body: &chunkedBody{b: append([]byte(nil), b...), chunk: 1 + len(b)/7}, ContentLength: aws.Int64(int64(len(b)))}, nil
 }
 func (f *s3Fake) PutObjectWithContext(ctx aws.Context, in *s3.PutObjectInput, opts ...request.Option) (*s3.PutObjectOutput, error) {
 	var body []byte
